@@ -237,6 +237,36 @@ def run_rejected_then_more(case: Dict[str, Any]) -> Dict[str, Any]:
         rig.until(lambda: b'\r\n\r\n' in oc.rx, [oc])
         body = G.coded(b'R', case['size'])
         data = b'HTTP/1.1 200 OK\r\nContent-Length: %d\r\nX-From-Origin: 1\r\n\r\n' % len(body) + body
+        if case.get('mid_response'):
+            # the first answer is still on its way from the origin (head and part of the body relayed, the rest not yet sent) when the
+            # unparseable follow-up arrives: whatever the proxy does about it, the bytes the client reads are origin bytes, in order
+            part = len(data) * 2 // 5
+            oc.send(data[:part])
+            client2 = client
+            rig.until(lambda: len(client2.rx) >= min(part, 300), [client], idle_timeout=0.5)
+            client.send(case['garbage'].encode('latin-1'))
+            rig.step(rng.randint(2, 10))
+            rest = data[part:]
+            for _ in range(3000):
+                if rest:
+                    n = oc.send(rest[:65536])
+                    if n > 0:
+                        rest = rest[n:]
+                    elif n < 0:
+                        break
+                rig.step()
+                client.pump(65536)
+                if client.ended or (not rest and len(client.rx) >= len(data)):
+                    break
+            rig.settle([client], quiet=6)
+            got = bytes(client.rx)
+            if not monitors.is_prefix(data, got):
+                viol.append({'key': 'proxy|rejected-then-more|foreign-bytes-inside-the-response-being-relayed',
+                             'detail': {'garbage': case['garbage'], 'diff': monitors.diff_streams(data[:len(got)], got), 'size': case['size']}})
+            else:
+                obs['mid_response_followups_checked'] = 1
+            return {'viol': viol, 'nontrivial': True, 'sig': 'rtm-mid/%s/%d' % (case['garbage'], case['size']), 'obs': dict(obs, **{'outcome:rejected': 1}),
+                    'sets': {'outcomes': {'rejected'}}, 'sample': {'case': case}}
         sent = 0
         for _ in range(6000):
             n = oc.send(data[sent:sent + 262144])
@@ -452,6 +482,9 @@ def cases(tier: str, seed: int):
         yield mk(kind='builder', law=['L2', 'L7', 'L8'][k % 3])
     for k, garbage in enumerate(['BOGUS\r\n\r\n', 'GET\r\n\r\n', '\x00\x01\x02\r\n\r\n', 'GET ftp://x/ HTTP/1.1\r\n\r\n'] * (2 if tier == 'quick' else 20)):
         yield mk(kind='rejected-then-more', garbage=garbage, size=[3000000, 8000000][k % 2], mode='local' if k % 3 else 'remote')
+    for k, garbage in enumerate(['BOGUS\r\n\r\n', 'GET\r\n\r\n', 'POST http://h.test/x HTTP/1.1\r\nContent-Length: abc\r\n\r\n', 'GET gopher://x/ HTTP/1.1\r\n\r\n',
+                                 'POST http://h.test/x HTTP/1.1\r\nTransfer-Encoding: chunked\r\n\r\nZZ\r\n'] * (2 if tier == 'quick' else 20)):
+        yield mk(kind='rejected-then-more', garbage=garbage, size=[1000, 200000][k % 2], mid_response=True, mode='local' if k % 3 else 'remote')
     for a in range(11):
         for b2 in range(11):
             for shape in (['cl-cl'] if tier == 'quick' and (a + b2) % 3 else ['cl-cl', 'triple']):
@@ -469,7 +502,7 @@ def cases(tier: str, seed: int):
 def floors(tier: str) -> Dict[str, int]:
     return {'builder:L2': 300, 'builder:L7': 300, 'builder:L8': 300,'outcome:rejected': 300, 'outcome:waiting': 100, 'outcome:closed-silently': 5, 'kind:trunc': 300,
             'kind:mutate': 200, 'kind:random': 200, 'kind:nonutf8': 50, 'distinct:outcomes': 5,
-            'kind:dup-framing': 150, 'nothing_forwarded_after_rejection': 6}
+            'kind:dup-framing': 150, 'nothing_forwarded_after_rejection': 6, 'mid_response_followups_checked': 6}
 
 
 if __name__ == '__main__':
